@@ -253,6 +253,17 @@ def IntReg.setValue (port : Port) (e : Endianness) (s : Sign) (address length : 
   | .err er => (.err er, d)
   | .panic => (.panic, d)
 
+/-- `IInteger::min` of `IntRegNode`: `i64::MIN` for signed, `0` for unsigned registers —
+independent of the register length (a 1-byte register reports the full `i64` range; values
+outside the natural range of the length are truncated by `set_value`, not refused). -/
+def IntReg.min (s : Sign) : I64 :=
+  match s with
+  | .signed => BitVec.intMin 64
+  | .unsigned => 0
+
+/-- `IInteger::max` of `IntRegNode`: always `i64::MAX`. -/
+def IntReg.max (_s : Sign) : I64 := BitVec.intMax 64
+
 /-- `IFloat::value` of `FloatRegNode` -/
 def FloatReg.value {F : Type} [FloatOps F] (port : Port) (e : Endianness) (address length : Int)
     (d : Dev) : R F × Dev :=
